@@ -55,6 +55,7 @@ class Client:
         self.transport = FakeTransport()
         self.transport.on_write = self._on_write
         self.messages = []
+        self.nonstandard_tokens = 0  # NaN / Infinity tokens seen in what the server wrote
         self.write_log = []          # (db height at write time, message)
         self._buf = b''
         self._ids = 0
@@ -72,10 +73,15 @@ class Client:
         while b'\n' in self._buf:
             line, self._buf = self._buf.split(b'\n', 1)
             if line.strip():
-                msg = json.loads(line)
+                msg = json.loads(line, parse_constant=self._constant)
                 self.messages.append(msg)
                 self.write_log.append((self.system.db.state.height, msg,
                                        set(self.system.ever_queryable)))
+
+    def _constant(self, token):
+        # NaN / Infinity / -Infinity: tokens Python's encoder writes but JSON does not have
+        self.nonstandard_tokens += 1
+        return float(token.replace('Infinity', 'inf'))
 
     def send_raw(self, data):
         self.protocol.data_received(data)
